@@ -183,7 +183,12 @@ class lateral_boundary(PseudoNetCDFFile):
             self.P_BET = 0.
             self.P_GAM = 0.
         elif GDTYPE == 6:
-            self.P_ALP = {90: 1, -90: -1}[self.__grid_hdr['plat'][0]]
+            # north (1) or south (-1) polar: the hemisphere of the origin
+            # (of the true latitude when the origin is on the equator)
+            plat = self.__grid_hdr['plat'][0]
+            if plat == 0:
+                plat = self.__grid_hdr['tlat1'][0]
+            self.P_ALP = -1 if plat < 0 else 1
             self.P_BET = self.__grid_hdr['tlat1'][0]
             self.P_GAM = self.__grid_hdr['plon'][0]
         else:
